@@ -108,7 +108,9 @@ example :
   decide
 
 /-- **all_or_nothing_trace** (the judge's "all or nothing" clause, whole-trace form): for every number of
-    services, publisher script and sequence of caller operations, the clause monitor `aonMon` of the
+    services, publisher script and sequence of caller operations (a `sub` issued while something is subscribed or a
+    renewal task is alive is a no-op of the model — manual re-subscription is not modelled — so "every subscribe
+    call in the history" means every FIRST subscription of a session), the clause monitor `aonMon` of the
     run-time judge, run over the model's complete trace, flags nothing — every subscribe call in the history
     ends in a snapshot satisfying `subOkPost` / `subFailPost` for exactly the requests of that call. -/
 theorem all_or_nothing_trace (n : Nat) (script : List Entry) (dflt : Entry) (ops : List Op) :
@@ -280,11 +282,12 @@ example :
 /-- nothing is subscribed and no task exists -/
 def Quiet (st : St) : Prop := st.subs = [] ∧ st.task = .none ∧ st.halted = false
 
-/-- **no further requests**: once unsubscribed, waiting (any duration) and unsubscribing again send
-    nothing — the trace grows by events none of which is a request — until the caller subscribes again -/
+/-- **no further requests (and no late callback)**: once unsubscribed, waiting (any duration) and unsubscribing
+    again send nothing and report nothing — the trace grows by events none of which is a request or an event
+    callback — until the caller subscribes again -/
 theorem quiet_after_unsubscribe (cfg : Cfg) (n : Nat) (st : St) (hq : Quiet st) (op : Op)
     (hop : ∀ a, op ≠ .sub a) :
-    Quiet (step cfg n st op) ∧ ∃ evs, (step cfg n st op).rtrace = evs ++ st.rtrace ∧ ∀ e ∈ evs, e.isReq = false := by
+    Quiet (step cfg n st op) ∧ ∃ evs, (step cfg n st op).rtrace = evs ++ st.rtrace ∧ ∀ e ∈ evs, e.isReq = false ∧ e.isCb = false := by
   obtain ⟨hs, htk, hh⟩ := hq
   cases op with
   | sub a => exact absurd rfl (hop a)
@@ -299,18 +302,18 @@ theorem quiet_after_unsubscribe (cfg : Cfg) (n : Nat) (st : St) (hq : Quiet st) 
     · simpa [St.snap, St.emit] using hs
     · simp [St.snap, St.emit]
     · simp [St.snap, St.emit, hh]
-    · simp [Ev.isReq]
+    · simp [Ev.isReq, Ev.isCb]
   | unsub =>
     simp only [step, doUnsub, hh, Bool.false_eq_true, if_false, settle, St.emit, htk, unsubscribeServices, hs, keys,
       List.map_nil, unsubAll, St.snap]
     refine ⟨⟨rfl, rfl, ?_⟩, [_, _, _], rfl, ?_⟩
     · simp [hh]
-    · simp [Ev.isReq]
+    · simp [Ev.isReq, Ev.isCb]
 
 /-- the state after `clean_unsubscribe` is `Quiet`, so both theorems chain: after unsubscribing returns no
     further request is sent for any continuation of waits and unsubscribes -/
 theorem quiet_run (cfg : Cfg) (n : Nat) (ops : List Op) (hops : ∀ op ∈ ops, ∀ a, op ≠ .sub a) :
-    ∀ st, Quiet st → ∃ evs, (ops.foldl (step cfg n) st).rtrace = evs ++ st.rtrace ∧ ∀ e ∈ evs, e.isReq = false := by
+    ∀ st, Quiet st → ∃ evs, (ops.foldl (step cfg n) st).rtrace = evs ++ st.rtrace ∧ ∀ e ∈ evs, e.isReq = false ∧ e.isCb = false := by
   induction ops with
   | nil => intro st _; exact ⟨[], rfl, by simp⟩
   | cons op r ih =>
